@@ -225,7 +225,7 @@ pub fn durations(q: bool) -> Vec<i128> {
 }
 
 pub fn run(rep: &mut Report) {
-    let q = rep.quick();
+    let q = false; // one parameter set for both tiers (3 s)
     let leap = LeapTable::load().expect("leap").0;
     rep.rule = "epoch lattice EL(scale) x duration lattice (|d| <= 20 000 years) for all nine scales under + - += -=; EL x 9 units for the Unit forms; exact-integer float seconds; the three identities on the same product; all 81 scale pairs for Epoch - Epoch on a sub-lattice incl. every leap-second entry; stateright BFS over +-d sequences from each scale's zero. Oracle: count arithmetic on i128; traces that hit a bound are don't-cares. Non-trivial = crosses a century boundary or the scale's zero.".into();
     rep.assumptions = vec!["cross-scale differences are judged relationally against the real to_time_scale (owned by C05-C07) for all pairs and additionally against the exact model for the uniform scales and UTC".into()];
